@@ -507,7 +507,21 @@ def builtin_getattr(interp, v, name):
         if name == 'index':
             return PyFunc(lambda interp, x: seq_index(interp, v, x), 'seq.index')
         if name == 'count':
-            raise Unsupported('seq.count')
+            def count(interp, x):
+                # s.count(x) for a sequence of symbolic length: a fresh integer characterised for the values 0, 1, >= 2
+                if v.kind == 'str':
+                    sub = SSeq.lift(x)
+                    if concrete(sub.length) != 1:
+                        raise Unsupported('str.count of a multi-character pattern')
+                    x = sub.get(0)
+                n = to_z3(v.length)
+                c = fresh_int('count')
+                p, q = fresh_int('p'), fresh_int('q')
+                one = z3.Exists([p], z3.And(0 <= p, p < n, zbool(z_eq(v.get(p), x))))
+                two = z3.Exists([p, q], z3.And(0 <= p, p < q, q < n, zbool(z_eq(v.get(p), x)), zbool(z_eq(v.get(q), x))))
+                interp.run.assume(z3.And(c >= 0, c <= n, (c >= 1) == one, (c >= 2) == two))
+                return c
+            return PyFunc(count, 'seq.count')
     if isinstance(v, (tuple, list)):
         if name == 'index':
             return PyFunc(lambda interp, x: seq_index(interp, SSeq.lift(v), x), 'tuple.index')
